@@ -497,6 +497,10 @@ def run(facts, rep, tier):
     rep.rule("C09-R9", "= C10-R9: everything else in the source note is unchanged - the edit of an extract / inline keeps the note's front matter.")
     from . import frontmatter
     frontmatter.rule_updates_carry_front_matter(facts, rep, "C09-R9")
+    rep.rule("C09-R10", "The actions work on the library as it is: <&Server as ActionContext>::{key_of, collect, squash, random_key, patch} forward to the graph without a fallback of their own "
+             "(an action on a dangling reference fails; it does not inline an empty note and delete a file that is not there).")
+    from . import forwards
+    forwards.rule_context_forwards(facts, rep, "C09-R10")
 
 class _Sub:
     """Forwards to a Report but keeps only instances located in the refactoring actions."""
